@@ -122,6 +122,25 @@ EXTRA2 = {
     "C20": " Execute histories, no-reply commands, the built-in replies in lock-step under varied request ids, login replies over TLS under any pair of ids, out-of-order fragment ids (this found the defect repaired by aab5bb0).",
 }
 
+# added after rounds 14-16 of seeded changes (DESIGN.md 11.1): one more sentence per check
+EXTRA3 = {
+    "C04": " One transient error in mid-packet under short writes (if run_on returns Ok the stream equals the undisturbed twin's); a backend that gives up in mid-row (finished rows byte for byte, the unfinished row's cells in no message).",
+    "C05": " A TLS request to a server that offers none, packets that are not commands (zero-length, unknown command bytes) and a reply the backend abandons in mid-way, each under chosen request ids: whatever is sent continues the ids of the packet it answers.",
+    "C06": " A third of the resultsets leave their last row to finish() or to a dropped writer; in a handful of cases the backend really pauses (650 ms quick, 1.6 s thorough) between two cells of a row.",
+    "C07": " A third of the columns carry flags that do not concern the encoding (ZEROFILL without UNSIGNED, key and default flags); last rows left to the destructor.",
+    "C08": " The backend's parameter declarations (type, UNSIGNED, ZEROFILL, NOT NULL, BINARY) vary and must not matter.",
+    "C10": " Commands the library does not know (COM_STMT_RESET, FETCH, RESET_CONNECTION, SET_OPTION, CHANGE_USER) in the middle of a history: no EXECUTE for an id that is dead by the PREPARE/CLOSE history reaches the shim.",
+    "C11": " A peer that hangs up as soon as it has the verdict (every transport operation behind the delivering flush fails), through run_on and run_on_stream: a rejected login still ends with the shim's error.",
+    "C12": " A TLS request to a server that offers none, text that is not UTF-8 and zero-length packets, each in lock-step: nothing written is unflushed when the server reads again.",
+    "C13": " An error reported before the backend gives up on the connection (plaintext and TLS), and an error followed by COM_QUIT without waiting (the ERR is among the flushed bytes when run_on returns Ok).",
+    "C14": " A fifth of the completion cases over a transport that takes 1..7 bytes at a time and once says WouldBlock/TimedOut/Interrupted.",
+    "C16": " Parameters read through nth/skip/step_by/last; 'types follow' said with any non-zero byte; a COM_STMT_RESET between bind and reuse.",
+    "C17": " A quarter of the executions read their parameters through iterator adaptors (nth, skip, step_by, last).",
+    "C18": " The refusal of a TLS request with scripted bytes (also decided on the build without the tls feature); a client that sends close_notify right behind its last command and ignores what follows the server's.",
+    "C19": " For every conversation of the corpus and both entry points: a transport that dies right behind the flush that delivered the last byte (or behind the last operation) changes nothing.",
+    "C20": " The ids of every reply, also to the raw (malformed) part of an input; conversations ended by COM_QUIT from a client that then waits: no read after the QUIT.",
+}
+
 ALL = ["C%02d" % i for i in range(1, 21)]
 
 
@@ -136,6 +155,7 @@ def main():
             tech += "; shared mega-history workload under the same oracle"
         text += EXTRA.get(pid, "")
         text += EXTRA2.get(pid, "")
+        text += EXTRA3.get(pid, "")
         text += " Before a sixth of the cases one to three predecessor connections run on the same thread and end badly (write error inside a reply, backend error inside a row, abandoned long data, ...): what they leave behind must not matter; during a sixth of the cases another connection is served on a second thread at a chosen read of the monitored one. The check runs the workload three times on three builds at three seeds: overflow/debug-assertion checked, release, and the library built without its tls cargo feature" + (" (that build decides one clause of this property only: a TLS request is refused before after_authentication)." if pid == "C18" else ".")
         checks.append({
             "property_id": pid,
